@@ -414,6 +414,30 @@ def run_world(repo: Repo, oe, label: str, data: bytes, value_check: bool) -> Lis
             if NODE_AS_CONSTANT:
                 group = "node-as-constant:" + "+".join(sorted(NODE_AS_CONSTANT))
             devs.append((f"value-differs:{group}", f"{label}: the decompiled program denotes {repr(got)[:70]}, the real unpickler builds {repr(expected)[:70]}"))
+        elif not NODE_AS_CONSTANT:
+            # ... and so does its *text* (what the CLI prints and a user would run): unparse, parse again, evaluate
+            group = label[len("pickle.dumps("):].split(",")[0] if label.startswith("pickle.dumps(") else "assembled-program" if label.startswith("asm:") else label
+            try:
+                text = ast.unparse(mod)
+            except Exception:
+                return devs  # (a tree the unparser refuses is reported by C19 / C13, which print it)
+            try:
+                mod2 = ast.parse(text)
+            except SyntaxError as e:
+                devs.append((f"program-text-not-python:{group}", f"{label}: the decompiled program's text does not parse: {e.msg} ({text[:80]!r})"))
+                return devs
+            except (ValueError, RecursionError, MemoryError):
+                return devs
+            try:
+                CALL_LOG.clear()
+                got2 = eval_program(mod2)
+            except (ProgramError, RecursionError):
+                return devs
+            except Exception as e:
+                devs.append((f"program-text-fails:{type(e).__name__}:{group}", f"{label}: the decompiled program evaluates as a tree but its text raises {type(e).__name__}: {str(e)[:80]}"))
+                return devs
+            if not same_value(expected, got2):
+                devs.append((f"program-text-differs:{group}", f"{label}: run from its text the decompiled program denotes {repr(got2)[:70]}, the real unpickler builds {repr(expected)[:70]}"))
     return devs
 
 
@@ -580,10 +604,14 @@ VALUE_SAFE_HAND = {
     "POP / DUP / POP_MARK", "EMPTY_SET/ADDITEMS/FROZENSET", "APPEND/SETITEM", "TUPLE1/2/3", "DICT/LIST from marks", "NEWTRUE/NEWFALSE/NONE", "BYTEARRAY8", "OBJ", "NEWOBJ", "NEWOBJ_EX", "REDUCE+BUILD",
     "FRAME with a wrong length", "FRAME zero", "two PROTO opcodes", "PROTO not first",
     "torch-like state dict (BINPERSID storage, _rebuild_tensor_v2, OrderedDict + BUILD)",
+    "MEMOIZE overwriting the slot an explicit BINPUT used", "callee fetched from a slot MEMOIZE overwrote (print -> os.system)", "sparse memo: a lone BINPUT 2", "INST without arguments",
+    "OBJ with two arguments", "NEWOBJ_EX with keyword names that are a reserved word / not NFKC-normal / ordinary", "os.system by INST (protocol 0)",
+    "EXT1 -> collections.OrderedDict", "EXT2 -> os.system, called", "EXT4 -> collections.OrderedDict",
+    "header-less NEWTRUE at offset 0", "header-less NEWFALSE at offset 0", "header-less EMPTY_SET at offset 0", "header-less EMPTY_TUPLE at offset 0", "header-less EMPTY_LIST at offset 0", "header-less EMPTY_DICT at offset 0", "header-less NONE at offset 0",
 }
 
 C09_KEYS = ("stack-depth", "mark-positions", "memo-keys", "opcode-order", "stops-elsewhere", "parse-raises", "decompile-raises")
-C05_KEYS = ("value-differs", "program-fails", "decompile-raises", "no-module")
+C05_KEYS = ("value-differs", "program-fails", "program-text", "decompile-raises", "no-module")
 C03_KEYS = ("call-not-in-program", "global-not-imported")
 
 
